@@ -413,8 +413,11 @@ class Gen:
         k = r.below(30) if d < 3 else r.below(9)
         v = r.choice(self.vars)
         e = self.expr
-        if k < 4:
+        if k < 3:
             return f"{p}{v} = {e()}\n"
+        if k == 3:
+            # expression statement: its value is discarded unless it ends the block
+            return f"{p}{r.choice(DISCARD_EXPRS)[1]}\n" if r.chance(1, 2) else f"{p}({e()})\n"
         if k == 4:
             return f"{p}{v} {r.choice(['+=', '-=', '*=', '/=', '%=', '^='])} {e()}\n"
         if k == 5:
@@ -500,6 +503,95 @@ class Gen:
     def program(self):
         pre = "a = 1\nb = [1, 2, 3]\nc = {x: 1, y: {z: 2}}\nd = 'text'\ne = (1, 2)\nf = |xs...| xs\n"
         return pre + self.block(0, 0, n=2 + self.r.below(6))
+
+
+# every expression kind, to be placed where its value is DISCARDED (compiled with no result register)
+# and where it is used.  Free names: a (number), b (list), c (map), d (string), f (variadic function).
+DISCARD_EXPRS = [
+    ("interp-expr", "'{a}'"), ("interp-lit-expr", "'v: {a}'"), ("interp-expr-lit", "'{a} b'"),
+    ("interp-3", "'x{a}y{d}z'"), ("interp-5", "'{a}-{b}-{c}-{d}-{a}'"), ("interp-fmt", "'{a:>8.3} w'"),
+    ("interp-fill", "'p {a:_^10} q'"), ("interp-debug", "'{b:?} !'"), ("interp-hex", "'n={a:x}'"),
+    ("interp-exp", "'{a:e}|{a:<6}|'"), ("interp-call", "'a{f(1)}b'"), ("interp-nested", "'a{'i{a}j'}b'"),
+    ("interp-expr-op", "'s{a + 1}t{b.size()}'"), ("interp-dq", '"q{a}r"'), ("plain-string", "'abc'"), ("raw-string", "r'a{b}'"),
+    ("string-index", "'{a}z'[0]"), ("string-chain", "'w{a}'.size()"), ("string-plus", "'l{a}' + 'r{d}'"),
+    ("list", "[a, f(1), 3]"), ("list-1", "[a]"), ("list-empty", "[]"), ("list-nested", "[[a, b], [f(a)], 'e{a}']"),
+    ("tuple", "(a, f(2))"), ("tuple-1", "(a,)"), ("tuple-nested", "((a, 1), (f(d), '{a}!'))"),
+    ("map", "{x: a, y: f(1)}"), ("map-empty", "{}"), ("map-nested", "{k: {m: [a, 'v{a}']}, 'q r': (1, 2)}"),
+    ("range", "a..10"), ("range-incl", "0..=a"), ("range-from", "a.."), ("range-to", "..a"), ("range-full", ".."),
+    ("call", "f(a, 2)"), ("call-nested", "f(f(a), [f(1)], 'c{a}')"), ("call-bare", "f a, 2"), ("call-instance", "b.size()"),
+    ("chain", "c.y.z"), ("chain-opt", "c?.y?.z"), ("chain-call", "c.y.keys().to_list()"), ("index", "b[0]"), ("slice", "b[1..]"),
+    ("pipe", "a -> f"), ("arith", "a + 1 * 2"), ("neg", "-a"), ("not", "not a"), ("compare", "a < 2"),
+    ("compare-chain", "0 < a < 5"), ("compare-chain-3", "0 <= a < 5 <= 9"), ("equal", "a == 1"), ("and", "a and b"), ("or", "a or b"),
+    ("and-or", "a and b or d"), ("and-strings", "'x{a}' and 'y{a}'"), ("if-inline", "if a then 'y{a}' else 'n'"),
+    ("function", "|x| x + a"), ("function-string", "|| 'in{a}'"), ("number", "42"), ("float", "1.5"), ("id", "a"),
+    ("null", "null"), ("bool", "true"), ("self-access", "c.x"), ("number-const", "100000"),
+]
+
+# statement forms around an expression E (the forms themselves are used as discarded statements)
+DISCARD_BLOCKS = [
+    ("if-stmt", "{p}if a\n{p}  {E}\n{p}  {E}\n{p}else\n{p}  {E}\n"),
+    ("match-stmt", "{p}match a\n{p}  1 then\n{p}    {E}\n{p}    {E}\n{p}  2 or 3 then {E}\n{p}  else\n{p}    {E}\n"),
+    ("switch-stmt", "{p}switch\n{p}  a == 1 then\n{p}    {E}\n{p}    {E}\n{p}  else {E}\n"),
+    ("try-stmt", "{p}try\n{p}  {E}\n{p}  {E}\n{p}catch err\n{p}  {E}\n{p}  err\n{p}finally\n{p}  {E}\n{p}  {E}\n"),
+    ("for-stmt", "{p}for i in 0..2\n{p}  {E}\n{p}  {E}\n"),
+    ("while-stmt", "{p}n = 0\n{p}while n < 2\n{p}  {E}\n{p}  n += 1\n"),
+    ("until-stmt", "{p}n = 0\n{p}until n > 1\n{p}  n += 1\n{p}  {E}\n"),
+    ("for-unpack-stmt", "{p}for k, v in c\n{p}  {E}\n{p}  v\n"),
+]
+
+DISCARD_PRE = "a = 1\nb = [1, 2, 3]\nc = {x: 1, y: {z: 2}}\nd = 'text'\nf = |xs...| xs\n"
+
+# positions: S is one or more complete statements (already indented with {p})
+DISCARD_POSITIONS = [
+    ("main-nonlast", "", "{S}a\n"),
+    ("main-twice", "", "{S}{S}a\n"),
+    ("main-last", "", "{S}"),
+    ("fn-nonlast", "  ", "g = |a|\n{S}  a\nprint g 3\n"),
+    ("fn-last", "  ", "g = |a|\n  a\n{S}print g 3\n"),
+    ("fn-in-string", "  ", "g = ||\n{S}  2\nprint 'a{g()}b'\n"),
+    ("fn-in-list", "  ", "g = ||\n{S}  2\nprint [1, g(), (g(), 'k{g()}')]\n"),
+    ("generator", "  ", "g = ||\n{S}  yield 1\n{S}  yield 2\nprint g().to_list()\n"),
+    ("nested-fn", "    ", "g = ||\n  h = ||\n{S}    3\n  h()\nprint g()\n"),
+    ("for-body", "  ", "for i in 0..2\n{S}  i\n"),
+    ("while-body", "  ", "n = 0\nwhile n < 2\n{S}  n += 1\n"),
+    ("if-branch", "  ", "if a == 1\n{S}  a\nelse\n{S}  2\n"),
+    ("match-arm", "    ", "z = match a\n  1 then\n{S}    2\n  else\n{S}    3\nz\n"),
+    ("try-body", "  ", "try\n{S}  throw 'x'\ncatch err\n{S}  err\nfinally\n{S}  0\n"),
+    ("map-block-fn", "    ", "m =\n  get: ||\n{S}    1\nprint m.get()\n"),
+    ("export-main", "", "{S}export q = 1\n"),
+]
+
+DISCARD_VALUE_POSITIONS = [
+    ("assign", "z = {E}\nz\n"), ("call-arg", "print f({E}, 1)\n"), ("fn-result", "g = || {E}\nprint g()\n"),
+    ("list-element", "z = [1, {E}]\n"), ("interpolated", "z = 'v{{{E}}}w'\n"), ("condition", "if {E}\n  1\n"),
+    ("throw", "try\n  throw {E}\ncatch err\n  err\n"), ("map-value", "z = {{k: {E}}}\n"), ("last", "{E}\n"),
+]
+
+
+def discard_cases(tier, rng):
+    """(tag, src): each expression kind as a discarded statement in every kind of position (and in value
+    position); quick tier: every string kind everywhere, the other kinds at four seeded positions each"""
+    out = []
+    stmts = [(n, "{p}" + e + "\n") for n, e in DISCARD_EXPRS]
+    for bn, bt in DISCARD_BLOCKS:
+        inner = ["'s{a}t'", "[a, 'u{a}']", "f('w{a}', a)", "a < 2"] if tier != "quick" else ["'s{a}t'", "[a, f(1)]"]
+        for k, e in enumerate(inner):
+            stmts.append((f"{bn}-{k}", bt.replace("{E}", e)))
+    for name, st in stmts:
+        is_string = "'" in st or '"' in st
+        poss = DISCARD_POSITIONS if (tier != "quick" or is_string) else \
+            [DISCARD_POSITIONS[rng.below(len(DISCARD_POSITIONS))] for _ in range(4)]
+        for pn, ind, tmpl in poss:
+            body = st.replace("{p}", ind)
+            out.append((f"{name}@{pn}", DISCARD_PRE + tmpl.replace("{S}", body)))
+    for name, e in DISCARD_EXPRS:
+        vps = DISCARD_VALUE_POSITIONS if tier != "quick" else [DISCARD_VALUE_POSITIONS[rng.below(len(DISCARD_VALUE_POSITIONS))]]
+        for pn, tmpl in vps:
+            if "{" in e and pn == "interpolated" and "'" in e:
+                continue        # nested quotes of the same kind
+            out.append((f"{name}@value-{pn}", DISCARD_PRE + tmpl.replace("{{", "\x00").replace("}}", "\x01")
+                        .replace("{E}", e).replace("\x00", "{").replace("\x01", "}")))
+    return out
 
 
 def size_scaled(tier):
@@ -612,18 +704,20 @@ def gen_cases(tier, seed, ovh):
     kotos = [p for p in progs if p[0] == "repo-koto"]
     others = [p for p in progs if p[0] != "repo-koto"]
     if tier == "quick":
-        pick = kotos + [others[rng.below(len(others))] for _ in range(min(260, len(others)))] if others else kotos
+        pick = kotos + [others[rng.below(len(others))] for _ in range(min(160, len(others)))] if others else kotos
     else:
         pick = progs
     for o, s in pick:
         cases.append({"origin": o, "src": s, "run": False, "reps": 2})
     small = [s for _, s in progs if 20 < len(s) < 1200]
-    nmut = 500 if tier == "quick" else 12000
+    nmut = 300 if tier == "quick" else 12000
     for _ in range(nmut // 4 if small else 0):
         for m in mutants(rng, small[rng.below(len(small))], 4):
             cases.append({"origin": "mutant", "src": m, "run": False, "reps": 1})
+    for tag, src in discard_cases(tier, rng):
+        cases.append({"origin": "discard-position", "tag": tag, "src": src, "run": True, "reps": 2, "limit_ms": 500})
     g = Gen(rng)
-    for _ in range(400 if tier == "quick" else 8000):
+    for _ in range(300 if tier == "quick" else 8000):
         cases.append({"origin": "generated", "src": g.program(), "run": True, "reps": 2, "limit_ms": 300})
     for tag, s in size_scaled(tier):
         m = re.fullmatch(r"(locals|fn-locals|fn-args|tuple-assign)-(\d+)", tag)
@@ -687,13 +781,33 @@ def known_class(case, r, what, detail=None):
         if re.search(r"\b(break|continue|return)\b", case["src"]):
             return "C05d"
         return None
+    if what == "wf":
+        # C05f: the verifier rejects a NewFrame that is not the first instruction of a function body, in a
+        # program with a function literal: compile_function emits the body of a function whose value is
+        # discarded (no result register) inline, without the Function instruction that skips it
+        if detail and detail.get("bad_op") == "NewFrame" and detail.get("first_rejected_ip") and "|" in case["src"]:
+            return "C05f"
+        return None
     return None
+
+
+def missing_builder(info, bad5):
+    """depths_ok rejected [ip, op, sequence depth, string depth, try depth] because a builder op runs with no
+    builder open on its path (C05d, an early exit LEAVING a builder behind, never looks like this)"""
+    if len(bad5) < 5 or bad5[1] >= 256:
+        return False
+    op = info["ops"][bad5[1]]
+    return (op in ("StringPush", "StringFinish") and bad5[3] == 0) or \
+        (op in ("SequencePush", "SequencePushN", "SequenceToList", "SequenceToTuple") and bad5[2] == 0)
 
 
 C05_FAULT_RE = re.compile(r"Out of bounds access|index out of bounds|out of range for slice|Empty call stack|"
                           r"Unexpected opcode|Instruction access out of bounds|attempt to subtract with overflow")
 
 KNOWN_TEXT = {
+    "C05f": "C05f a function literal whose value is discarded (expression statement that is not the last of its block) "
+            "compiles its BODY inline without the Function instruction: NewFrame/Return execute in the enclosing frame "
+            "(early return, or `index out of bounds` panic in vm.rs set_register)",
     "C05d": "C05d break/continue/return out of a try block or a half-built list/tuple/string leaves the try / "
             "builder depth unbalanced (clause 5)",
 }
@@ -879,16 +993,17 @@ def run(tier, seed):
                 continue
             # Coq prints ((a, b), c) as (a, b, c)
             decoded, (wf, bad, (d5, bad5)) = vals[i]
-            if not d5:
+            if not d5 and wf:
                 d5detail = {"verifier": "depths_ok = false (clause 5)", "first_rejected": dict(zip(
                     ["ip", "op", "sequence_depth", "string_depth", "try_depth"], bad5)),
                     "python_dataflow_says": py5.get(i, [])[:3]}
                 if len(bad5) >= 2 and bad5[1] < 256:
                     d5detail["first_rejected"]["op"] = info["ops"][bad5[1]]
-                k = known_class(cases[i], res[i], "clause5")
+                k = None if missing_builder(info, bad5) else known_class(cases[i], res[i], "clause5")
                 if k:
                     chk.known(KNOWN_TEXT[k])
                 else:
+                    d5detail["run"] = res[i].get("run")
                     wf_fail.append((len(cases[i]["src"]), i, "clause5", d5detail))
             if i in py5 and wf and bool(py5[i]) == d5:
                 d5_disagree.append(f"{cases[i].get('tag') or cases[i]['origin']}: depths_ok={d5}, python dataflow: {py5[i][:2]}")
@@ -1004,7 +1119,7 @@ def replay(path, args):
             if why:
                 bad.append("decoder model disagrees: " + why)
             wf_ok, wf_bad, (d5, bad5) = v[1]
-            if not d5 and not known_class(case, r, "clause5"):
+            if not d5 and (missing_builder(info, bad5) or not known_class(case, r, "clause5")):
                 bad.append(f"depths_ok = false (clause 5): {bad5}")
             if not wf_ok:
                 b = wf_bad
